@@ -6,7 +6,7 @@ import NemoVerif.Models.PipelineCtx
    `C02.ctx`: the event-level model of the two contexts of Colang 1.0 (`Models/PipelineCtx.lean`).
    request  {"m": "C02.ctx", "drop": b (default false: the code as it is),
              "in": [[id, pure]..], "out": [[id, pure]..],
-             "turns": [{"user": s, "bot": s, "vin": [[id, v]..], "vout": [[id, v]..], "dialog_fault": b}]}
+             "turns": [{"user": s, "bot": s, "vin": [[id, v]..], "vout": [[id, v]..], "dialog_fault": b, "no_in": b, "no_out": b}]}
    response {"turns": [{"in_calls": [[id, text]..], "user_msg": s|null, "out_calls": [[id, text]..], "uttered": s|null}]} -/
 namespace NemoVerif.Drive.C02
 open Lean NemoVerif NemoVerif.Drive NemoVerif.Pipeline NemoVerif.PipelineCtx
@@ -41,7 +41,9 @@ def handle (op : String) (j : Json) : Except String Json := do
     let inRails ← railsOfJson (← j.getObjVal? "in")
     let outRails ← railsOfJson (← j.getObjVal? "out")
     let turns ← (← (← j.getObjVal? "turns").getArr?).toList.mapM turnEOfJson
-    let obs := convE (C01.getBoolD j "drop" false) inRails outRails [] turns
+    let opts := (← (← j.getObjVal? "turns").getArr?).toList.map fun tj =>
+      ({ input := !C01.getBoolD tj "no_in" false, output := !C01.getBoolD tj "no_out" false } : CallOpts)
+    let obs := convEP (C01.getBoolD j "drop" false) inRails outRails [] (opts.zip turns)
     pure (Json.mkObj [("turns", Json.arr (obs.map fun o =>
       Json.mkObj [("in_calls", callsToJson o.inCalls), ("user_msg", optStrToJson o.userMsg),
         ("out_calls", callsToJson o.outCalls), ("uttered", optStrToJson o.uttered)]).toArray)])
